@@ -19,6 +19,10 @@
 (* mapped forms), every destination encoding and every short UDP           *)
 (* association.                                                            *)
 (*                                                                         *)
+(* The logging level of the handlers (loglvl) is part of the environment:  *)
+(* every scenario is explored, generated and executed at "info" and at     *)
+(* "debug"; the decisions must be the same.                                *)
+(*                                                                         *)
 (* Addresses: IPv4 = <<4 octets>>, IPv6 = <<8 hextets>> (TLC integers are  *)
 (* 32-bit), Nil = <<>> (Go's nil net.IP).                                  *)
 (*                                                                         *)
@@ -31,6 +35,7 @@
 EXTENDS Integers, Sequences, FiniteSets, TLC
 
 CONSTANTS Modes,        \* subset of {"tcp","udp","dec"}: which scenario families a behaviour may be
+          LogLevels,    \* subset of {"info","debug"}: logger level of the handler, an ENVIRONMENT parameter
           MaxPkts,      \* datagrams per UDP association
           ValidateKnown \* TRUE = udp.go:200 validates in the known-association branch (the real code)
 
@@ -279,6 +284,8 @@ CONSTANTS TcpDests, UdpDests, UdpFirst   \* substituted by the sets above in the
 (* MECHANISM LAYER (2): where the policy is applied.                       *)
 (***************************************************************************)
 VARIABLES mode,
+          loglvl,     \* level of the logger given to the stream / packet handler (SetLogger; the binary's -verbose).
+                      \* No action reads it: logging must not change any decision of the address policy.
           \* TCP: one authenticated connection (tcp.go:342-368 + net.Dialer)
           tphase,     \* "idle" -> "resolve" -> "dial" -> ("relay" ->) "closed"
           treq,       \* the destination the client asked for
@@ -301,12 +308,13 @@ VARIABLES mode,
 tvars == <<tphase, treq, todo, firstErr, tstatus, contacted>>
 uvars == <<nat, upos, ustep, ucur, ucand, ustat, sent, ulog, upk>>
 dvars == <<dphase, q, qstat>>
-vars  == <<mode, tvars, uvars, dvars, tr>>
+vars  == <<mode, loglvl, tvars, uvars, dvars, tr>>
 
 NoDest == Dest(0, "none", Nil, FALSE, "")
 NoCand == Cand(Nil, FALSE, FALSE)
 
 Init == /\ mode \in Modes
+        /\ loglvl \in (IF mode = "dec" THEN {"info"} ELSE LogLevels)
         /\ tphase = "idle" /\ treq = NoDest /\ todo = {} /\ firstErr = "" /\ tstatus = "" /\ contacted = {}
         /\ nat = FALSE /\ upos = 0 /\ ustep = "idle" /\ ucur = NoDest /\ ucand = NoCand /\ ustat = ""
         /\ sent = {} /\ ulog = <<>> /\ upk = <<>>
@@ -316,26 +324,26 @@ Init == /\ mode \in Modes
 (* ---- decision query: RequirePublicIP(a) ---- *)
 Decide(a) == /\ mode = "dec" /\ dphase = "idle"
              /\ q' = a /\ qstat' = CodeStatus(a) /\ dphase' = "done"
-             /\ UNCHANGED <<mode, tvars, uvars, tr>>
+             /\ UNCHANGED <<mode, loglvl, tvars, uvars, tr>>
 
 (* ---- TCP ---- *)
 \* tcp.go:351 getProxyRequest: the authenticated client names its destination
 TcpRequest(d) == /\ mode = "tcp" /\ tphase = "idle"
                  /\ treq' = d /\ tphase' = "resolve"
-                 /\ tr' = Append(tr, [a |-> "Tcp", d |-> d, ans |-> IF d.k = "host" THEN Answers[d.h] ELSE {},
+                 /\ tr' = Append(tr, [a |-> "Tcp", log |-> loglvl, d |-> d, ans |-> IF d.k = "host" THEN Answers[d.h] ELSE {},
                                       cls |-> {Class(c.w) : c \in Cands(d)}])
-                 /\ UNCHANGED <<mode, todo, firstErr, tstatus, contacted, uvars, dvars>>
+                 /\ UNCHANGED <<mode, loglvl, todo, firstErr, tstatus, contacted, uvars, dvars>>
 \* tcp.go:361 -> TCPDialer.DialStream -> net.Dialer.DialContext: resolve the host part into the address list
 TcpResolve == /\ tphase = "resolve"
               /\ todo' = Cands(treq) /\ tphase' = "dial"
-              /\ UNCHANGED <<mode, treq, firstErr, tstatus, contacted, uvars, dvars, tr>>
+              /\ UNCHANGED <<mode, loglvl, treq, firstErr, tstatus, contacted, uvars, dvars, tr>>
 \* tcp.go:180-183: the Control hook runs after socket(2), before connect(2), once per address tried; an error makes
 \* this attempt fail and the dialer goes on with the next address
 TcpControlReject(c) == /\ tphase = "dial" /\ c \in todo
                        /\ CodeRejects(SeenTcp(c))
                        /\ todo' = todo \ {c}
                        /\ firstErr' = IF firstErr = "" THEN CodeStatus(SeenTcp(c)) ELSE firstErr
-                       /\ UNCHANGED <<mode, tphase, treq, tstatus, contacted, uvars, dvars, tr>>
+                       /\ UNCHANGED <<mode, loglvl, tphase, treq, tstatus, contacted, uvars, dvars, tr>>
 \* connect(2): a SYN leaves for c.w.  Enabled only if the hook accepted the address.
 TcpConnect(c) == /\ tphase = "dial" /\ c \in todo
                  /\ ~CodeRejects(SeenTcp(c))
@@ -345,22 +353,22 @@ TcpConnect(c) == /\ tphase = "dial" /\ c \in todo
                       THEN tphase' = "relay" /\ UNCHANGED firstErr
                       ELSE /\ firstErr' = IF firstErr = "" THEN "ERR_CONNECT" ELSE firstErr
                            /\ UNCHANGED tphase
-                 /\ UNCHANGED <<mode, treq, tstatus, uvars, dvars, tr>>
+                 /\ UNCHANGED <<mode, loglvl, treq, tstatus, uvars, dvars, tr>>
 \* happy eyeballs: an attempt of the other family may already be under way when the first connection succeeds
 TcpRaceConnect(c) == /\ tphase = "relay" /\ c \in todo
                      /\ ~CodeRejects(SeenTcp(c))
                      /\ contacted' = contacted \cup {c.w}
                      /\ todo' = todo \ {c}
-                     /\ UNCHANGED <<mode, tphase, treq, firstErr, tstatus, uvars, dvars, tr>>
+                     /\ UNCHANGED <<mode, loglvl, tphase, treq, firstErr, tstatus, uvars, dvars, tr>>
 \* tcp.go:295-297 every attempt failed: the first error decides the status (ensureConnectionError)
 TcpDialFailed == /\ tphase = "dial" /\ todo = {}
                  /\ tstatus' = IF firstErr = "" THEN "ERR_CONNECT" ELSE firstErr
                  /\ tphase' = "closed"
-                 /\ UNCHANGED <<mode, treq, todo, firstErr, contacted, uvars, dvars, tr>>
+                 /\ UNCHANGED <<mode, loglvl, treq, todo, firstErr, contacted, uvars, dvars, tr>>
 \* tcp.go:299-328 relay until both directions are done
 TcpRelayDone == /\ tphase = "relay"
                 /\ tstatus' = "OK" /\ tphase' = "closed"
-                /\ UNCHANGED <<mode, treq, todo, firstErr, contacted, uvars, dvars, tr>>
+                /\ UNCHANGED <<mode, loglvl, treq, todo, firstErr, contacted, uvars, dvars, tr>>
 
 TcpNext == \/ \E d \in TcpDests : TcpRequest(d)
            \/ TcpResolve
@@ -375,10 +383,10 @@ UdpRecv(d) == /\ mode = "udp" /\ ustep = "idle" /\ upos < MaxPkts
               /\ upos' = upos + 1 /\ ucur' = d
               /\ ustep' = IF nat THEN "known" ELSE "new"
               /\ upk' = Append(upk, d)
-              /\ tr' = Append(tr, [a |-> "Pkt", pos |-> upos + 1, d |-> d,
+              /\ tr' = Append(tr, [a |-> "Pkt", log |-> loglvl, pos |-> upos + 1, d |-> d,
                                    ans |-> IF d.k = "host" THEN Answers[d.h] ELSE {},
                                    cls |-> {Class(c.w) : c \in Cands(d)}])
-              /\ UNCHANGED <<mode, nat, ucand, ustat, sent, ulog, tvars, dvars>>
+              /\ UNCHANGED <<mode, loglvl, nat, ucand, ustat, sent, ulog, tvars, dvars>>
 \* udp.go:233 net.ResolveUDPAddr picks ONE of the resolved addresses (or fails)
 UdpResolve == /\ ustep \in {"new", "known"}
               /\ IF Cands(ucur) = {}
@@ -386,29 +394,29 @@ UdpResolve == /\ ustep \in {"new", "known"}
                    ELSE /\ \E c \in Cands(ucur) : ucand' = c
                         /\ ustep' = IF ustep = "new" THEN "validateNew" ELSE "validateKnown"
                         /\ UNCHANGED ustat
-              /\ UNCHANGED <<mode, nat, upos, ucur, sent, ulog, upk, tvars, dvars, tr>>
+              /\ UNCHANGED <<mode, loglvl, nat, upos, ucur, sent, ulog, upk, tvars, dvars, tr>>
 \* udp.go:180 (first datagram of an association) -> :184-188 socket + NAT entry
 UdpValidateNew == /\ ustep = "validateNew"
                   /\ IF CodeRejects(SeenUdp(ucand))
                        THEN ustat' = CodeStatus(SeenUdp(ucand)) /\ ustep' = "report" /\ UNCHANGED nat
                        ELSE nat' = TRUE /\ ustep' = "send" /\ UNCHANGED ustat
-                  /\ UNCHANGED <<mode, upos, ucur, ucand, sent, ulog, upk, tvars, dvars, tr>>
+                  /\ UNCHANGED <<mode, loglvl, upos, ucur, ucand, sent, ulog, upk, tvars, dvars, tr>>
 \* udp.go:200 (every later datagram).  ValidateKnown = FALSE models "only the first datagram is validated".
 UdpValidateKnown == /\ ustep = "validateKnown"
                     /\ IF ValidateKnown /\ CodeRejects(SeenUdp(ucand))
                          THEN ustat' = CodeStatus(SeenUdp(ucand)) /\ ustep' = "report"
                          ELSE ustep' = "send" /\ UNCHANGED ustat
-                    /\ UNCHANGED <<mode, nat, upos, ucur, ucand, sent, ulog, upk, tvars, dvars, tr>>
+                    /\ UNCHANGED <<mode, loglvl, nat, upos, ucur, ucand, sent, ulog, upk, tvars, dvars, tr>>
 \* udp.go:206 targetConn.WriteTo: the datagram leaves for ucand.w
 UdpSendToTarget == /\ ustep = "send"
                    /\ sent' = sent \cup {<<upos, ucand.w>>}
                    /\ ustat' \in {"OK", "ERR_WRITE"} /\ ustep' = "report"
-                   /\ UNCHANGED <<mode, nat, upos, ucur, ucand, ulog, upk, tvars, dvars, tr>>
+                   /\ UNCHANGED <<mode, loglvl, nat, upos, ucur, ucand, ulog, upk, tvars, dvars, tr>>
 \* udp.go:213-220: reported only if there is an association (targetConn != nil)
 UdpReport == /\ ustep = "report"
              /\ ulog' = IF nat THEN Append(ulog, <<upos, ustat>>) ELSE ulog
              /\ ustep' = "idle" /\ ustat' = "" /\ ucur' = NoDest /\ ucand' = NoCand
-             /\ UNCHANGED <<mode, nat, upos, sent, upk, tvars, dvars, tr>>
+             /\ UNCHANGED <<mode, loglvl, nat, upos, sent, upk, tvars, dvars, tr>>
 
 UdpNext == \/ \E d \in (IF upos = 0 THEN UdpFirst ELSE UdpDests) : UdpRecv(d)
            \/ UdpResolve \/ UdpValidateNew \/ UdpValidateKnown \/ UdpSendToTarget \/ UdpReport
@@ -460,12 +468,12 @@ UdpOutcomeAgrees == \A i \in DOMAIN ulog :
                       LET p == ulog[i][1] IN
                         <<{s[2] : s \in {x \in sent : x[1] = p}}, ulog[i][2]>> \in UdpOutcomes(Cands(upk[p]), TRUE)
 
-TypeOK == /\ mode \in {"tcp", "udp", "dec"}
+TypeOK == /\ mode \in {"tcp", "udp", "dec"} /\ loglvl \in {"info", "debug"}
           /\ tphase \in {"idle", "resolve", "dial", "relay", "closed"}
           /\ ustep \in {"idle", "new", "known", "validateNew", "validateKnown", "send", "report"}
           /\ upos \in 0..MaxPkts /\ nat \in BOOLEAN
           /\ dphase \in {"idle", "done"}
 
-View == <<mode, tvars, uvars, dvars>>
+View == <<mode, loglvl, tvars, uvars, dvars>>
 
 ===============================================================================
